@@ -754,6 +754,9 @@ def check_c12(exe, tier, seed, verdict):
         # the two directories given as RELATIVE names (the process stands in the tree's root)
         sc += ["chdir %s" % hx(R), "cbreset", "readdirs 80 %s %s %s %s x3d x23" % (hx("usr/etc"), hx("etc"), hx("cfg"), hx("conf")), "dump 80", "free 80",
                "readdirscb 81 %s %s %s %s x3d x23" % (hx("usr/etc"), hx("etc"), hx("cfg"), hx("conf")), "dump 81", "free 81", "chdir %s" % hx("/")]
+        # the two directories spelt with a trailing slash / with doubled slashes
+        sc += ["cbreset", "readdirs 82 %s %s %s %s x3d x23" % (hx(R + "/usr/etc/"), hx(R + "/etc/"), hx("cfg"), hx("conf")), "dump 82", "free 82",
+               "readdirscb 83 %s %s %s %s x3d x23" % (hx(R + "//usr//etc"), hx(R + "/etc//"), hx("cfg"), hx("conf")), "dump 83", "free 83"]
         cases.append((i, sc))
         metas.append((t, paths))
     res = core.run_cases(exe, cases)
@@ -773,7 +776,7 @@ def check_c12(exe, tier, seed, verdict):
         # split events per entry point
         reads = [(j, e) for j, e in enumerate(ev) if e["op"].startswith("read")]
         bad = False
-        for (j, rd), ent in zip(reads, ents_of[i] + ["readdirs+set_conf_dirs", "readdirs(relative directories)", "readdirscb(relative directories)"]):
+        for (j, rd), ent in zip(reads, ents_of[i] + ["readdirs+set_conf_dirs", "readdirs(relative directories)", "readdirscb(relative directories)", "readdirs(trailing slashes)", "readdirscb(doubled slashes)"]):
             nxt = [e for e in ev[j + 1:j + 10] if e["op"] == "dump"]
             if rd["rc"] != x["rc"]:
                 verdict.violation(fp + ":rc:" + ent, dict(case, entry=ent, got=rd["rc"]), "%s on %s: rc %s, expected %s" % (ent, tree_text(t), rd["rc"], x["rc"]))
@@ -820,7 +823,7 @@ def check_c12(exe, tier, seed, verdict):
     ok += check_longnames_fold(exe, verdict)
     cov = {"states": r.distinct, "transitions": r.generated, "traces_validated_against_impl": ok,
            "evaluations": len(recs) * 9, "distinct_nontrivial": nn,
-           "rule": "every 2-layer tree (main x4 per layer, every subset of 3 names per layer, content shapes) exported by TLC (%d trees, %d replayed): econf_readDirs, econf_readDirsWithCallback, econf_readConfig(+WithCallback) with PARSING_DIRS=<the same two directories>, econf_readDirsHistory(+WithCallback) econf_readDirs under econf_set_conf_dirs, and econf_readDirs(+WithCallback) with the directories as relative names are all run on the SAME tree and each compared with the specification's expectation (so with each other; every fourth tree in a directory whose name holds list separators, blanks, delimiter / comment / format characters, brackets or non-ASCII bytes - all entry points but the option-string route); history members: path -> file identity, own content, order; model invariant HistoryFolds: folding the history with masking gives the result. The same under a non-default process-wide drop-in directory list, and with the suffix NULL / empty (every directory entry counts; %d trees over the names .conf, a.conf, a.conf.bak, conf): all merged-result entry points agree, both history variants agree and the delivered history folded with masking (Trace_Layers!THistFold) gives the result; the same with ONE drop-in name of 6, 64, 200, 254 and 255 bytes present in both layers. While a process-wide requirement (owner / group / file permission bits / directory permission bits, in rotation) is in force that one file of the tree does not fulfil, the six entry points answer with the same return code and result (%d trees). non-trivial = >= 2 files consulted and all seven calls compared." % (total, len(recs), nns, nreq),
+           "rule": "every 2-layer tree (main x4 per layer, every subset of 3 names per layer, content shapes) exported by TLC (%d trees, %d replayed): econf_readDirs, econf_readDirsWithCallback, econf_readConfig(+WithCallback) with PARSING_DIRS=<the same two directories>, econf_readDirsHistory(+WithCallback) econf_readDirs under econf_set_conf_dirs, and econf_readDirs(+WithCallback) with the directories as relative names, with trailing and with doubled slashes are all run on the SAME tree and each compared with the specification's expectation (so with each other; every fourth tree in a directory whose name holds list separators, blanks, delimiter / comment / format characters, brackets or non-ASCII bytes - all entry points but the option-string route); history members: path -> file identity, own content, order; model invariant HistoryFolds: folding the history with masking gives the result. The same under a non-default process-wide drop-in directory list, and with the suffix NULL / empty (every directory entry counts; %d trees over the names .conf, a.conf, a.conf.bak, conf): all merged-result entry points agree, both history variants agree and the delivered history folded with masking (Trace_Layers!THistFold) gives the result; the same with ONE drop-in name of 6, 64, 200, 254 and 255 bytes present in both layers. While a process-wide requirement (owner / group / file permission bits / directory permission bits, in rotation) is in force that one file of the tree does not fulfil, the six entry points answer with the same return code and result (%d trees). non-trivial = >= 2 files consulted and all seven calls compared." % (total, len(recs), nns, nreq),
            "samples": [{"tree": tree_text({"main": x["main"], "drop": x["drop"], "shp": x["shp"]}), "history": x["hist"]} for x in recs[100:101]],
            "exhaustive": tier == "thorough",
            "trusted_base": ["TLC 1.8.0", "gcc ASan/UBSan", "drv.c"]}
